@@ -15,10 +15,20 @@
 package rpc
 
 import (
+	"fmt"
 	"github.com/logrange/logrange/api"
 	"github.com/logrange/range/pkg/utils/bytes"
 	"github.com/logrange/range/pkg/utils/encoding/xbinary"
 )
+
+// unmarshalString is xbinary.UnmarshalString with the length checked against the buffer first: the library converts
+// the length varint to int and adds the index without an overflow check, so a length >= 2^63-idx makes it panic.
+func unmarshalString(buf []byte, newBuf bool) (int, string, error) {
+	if idx, uln, err := xbinary.UnmarshalUint(buf); err == nil && uln > uint(len(buf)-idx) {
+		return 0, "", fmt.Errorf("string length %d exceeds the %d bytes left in the buffer", uln, len(buf)-idx)
+	}
+	return xbinary.UnmarshalString(buf, newBuf)
+}
 
 // api.LogEvent
 
@@ -59,21 +69,21 @@ func unmarshalLogEvent(buf []byte, res *api.LogEvent, newBuf bool) (int, error) 
 	nn := n
 	res.Timestamp = int64(v)
 
-	n, msg, err := xbinary.UnmarshalString(buf[nn:], newBuf)
+	n, msg, err := unmarshalString(buf[nn:], newBuf)
 	nn += n
 	if err != nil {
 		return nn, err
 	}
 	res.Message = msg
 
-	n, tags, err := xbinary.UnmarshalString(buf[nn:], newBuf)
+	n, tags, err := unmarshalString(buf[nn:], newBuf)
 	nn += n
 	if err != nil {
 		return nn, err
 	}
 	res.Tags = tags
 
-	n, res.Fields, err = xbinary.UnmarshalString(buf[nn:], newBuf)
+	n, res.Fields, err = unmarshalString(buf[nn:], newBuf)
 	nn += n
 	return nn, err
 }
@@ -128,14 +138,14 @@ func unmarshalQueryRequest(buf []byte, qr *api.QueryRequest, newBuf bool) (int, 
 	nn := n
 	qr.ReqId = v
 
-	n, s, err := xbinary.UnmarshalString(buf[nn:], newBuf)
+	n, s, err := unmarshalString(buf[nn:], newBuf)
 	nn += n
 	if err != nil {
 		return nn, err
 	}
 	qr.Query = s
 
-	n, s, err = xbinary.UnmarshalString(buf[nn:], newBuf)
+	n, s, err = unmarshalString(buf[nn:], newBuf)
 	nn += n
 	if err != nil {
 		return nn, err
